@@ -432,7 +432,8 @@ package evaluator
 //@     invariant isArr(v0) && a == arr(v0)
 //@     invariant !n ==> len(r) == 0 && ref(r) == 0 && (forall k Int :: 0 <= k && k <= iter ==> nnq(old(heap), a, k) == k)
 //@     invariant n ==> len(r) == nnq(old(heap), a, iter) && fresh(r)
-//@     invariant n ==> (forall k Int :: 0 <= k && k < iter && a[k] != nil ==> r[nnq(old(heap), a, k)] == a[k])
+//@     invariant n ==> (forall k Int :: 0 <= k && k < iter && at(old(heap), a, k) != nil ==> r[nnq(old(heap), a, k)] == at(old(heap), a, k))
+//@     invariant forall k Int :: 0 <= k && k < len(a) ==> a[k] == at(old(heap), a, k)
 //@     invariant forall k Int :: 0 <= k && k <= iter ==> 0 <= nnq(old(heap), a, k) && nnq(old(heap), a, k) <= k
 
 // ---------------------------------------------------------------------------
